@@ -129,13 +129,13 @@ func GenCycle(r *vh.Rng, forceProportion bool) CycleSpec {
 				ts.Status = vh.Pick(r, []int64{SRunning, SRunning, SBound, SReleasing})
 			case 2:
 				if r.Chance(1, 2) {
-					ts.Status = SSucceeded
+					ts.Status = vh.Pick(r, []int64{SSucceeded, SSucceeded, SFailed})
 				}
 			}
 			if ts.Status != SPending {
 				nid := int64(r.Range(1, nn))
 				f := room[nid]
-				if ts.Status == SSucceeded {
+				if ts.Status == SSucceeded || ts.Status == SFailed {
 					ts.Node = nid
 				} else if f.cpu >= ts.CPU && f.mem >= ts.Mem && f.pods >= 1 && f.gpu >= ts.GPU {
 					f.cpu -= ts.CPU
